@@ -23,7 +23,15 @@ def execute(c):
         ids = [int(v) - 100 for v in p["tag"]]
         ok = all((float(p.x()[k]), float(p.y()[k]), float(p.z()[k])) == pos[i] for k, i in enumerate(ids))
         return {"path": ids, "pointsok": int(ok)}
-    t = lib.mk_tree(P, attr)
+    if "pre" in c:
+        # history: query everything on the pre-state, re-parent one node in place through its handle, then query again
+        t = lib.mk_tree(c["pre"], attr)
+        warm(t)
+        if c["cid"] % 3 == 1:
+            t = t.copy()             # a copy taken after the queries must not carry what they remembered either
+        t.node(c["ed"][0]).pid = c["ed"][1]
+    else:
+        t = lib.mk_tree(P, attr)
     if op == "decomp":
         return {"branches": [[int(i) for i in b.origin_id()] for b in t.get_branches()],
                 "paths": [[int(i) for i in p.origin_id()] for p in t.get_paths()],
@@ -56,8 +64,20 @@ def execute(c):
     raise ValueError(op)
 
 
+def warm(t):
+    """every query in the property's scope, so that anything the library remembers between calls is filled"""
+    from swcgeom.core import BranchTree
+    t.get_branches(); t.get_paths(); t.get_tips(); t.get_furcations()
+    for n in t:
+        n.is_tip(); n.is_furcation(); n.children(); n.parent()
+        if not n.is_furcation():
+            n.branch()
+    BranchTree.from_tree(t)
+    t.traverse(enter=lambda n, p: 0, leave=lambda n, cs: 0)
+
+
 def keyfn(c, o, why):
-    return "%s:%s" % (c["op"], why)
+    return "%s%s:%s" % (c["op"], "-after-edit" if "pre" in c else "", why)
 
 
 def nontrivial(c):
@@ -78,11 +98,26 @@ def free_cases(ctx, count, nmax):
             P[lab[i]] = lab[par[i]]
         op = rng.choice(["decomp", "branch_tree", "node_branch", "longest_path"])
         c = {"op": op, "P": P}
+        if op != "longest_path" and rng.random() < 0.4:          # a history: query, re-parent in place, query again
+            i = rng.randrange(1, n)
+            below = {i}
+            grew = True
+            while grew:
+                grew = False
+                for k in range(n):
+                    if P[k] in below and k not in below:
+                        below.add(k); grew = True
+            cand = [j for j in range(n) if j not in below and j != P[i]]
+            if cand:
+                j = rng.choice(cand)
+                Q = list(P); Q[i] = j
+                c = {"op": op, "P": Q, "pre": P, "ed": [i, j]}
+                P = Q
         if op == "node_branch":
             kids = [P.count(i) for i in range(n)]
             c["i"] = rng.choice([i for i in range(n) if kids[i] < 2])
         if op == "longest_path":
-            c["el"] = [1] + [rng.randint(1, 3) for _ in range(n - 1)]
+            c["el"] = [1] + [rng.randint(0, 3) for _ in range(n - 1)]
         cases.append(c)
     return cases
 
